@@ -5,7 +5,7 @@ random DAG generator.
 from vp import gen
 
 
-def base_program(pkg, layout="three", import_form="from_import", entry_data=False, with_ext=True):
+def base_program(pkg, layout="three", import_form="from_import", entry_data=False, with_ext=True, local=False):
     """
     main
      |- x0 = keep /a  A(1, 2)           literal arguments            A -> h1 -> h2, A -> C (data /c)
@@ -68,6 +68,13 @@ def base_program(pkg, layout="three", import_form="from_import", entry_data=Fals
         gen.s_keep("/empty/bytes", EMB, [gen.lit("1")]),
     ]
     p["entry"] = main
+    if local:
+        # function-local imports: `import dds` inside the functions that keep, and a top-level module that only
+        # the body of h2 imports (so nothing has loaded it when the first analysis runs)
+        for fid in (main, E3, A):
+            p["fns"][fid]["local_dds"] = True
+        gen.add_lazy(p)
+        p["fns"][h2]["stmts"].append(gen.s_lazy_call())
     if with_ext:
         p["ext"] = {"pkg": pkg + "_ext", "const": 1, "var": "1", "comment": "c"}
     p["_ids"] = {"h2": h2, "C": C, "h1": h1, "A": A, "B": B, "D": D, "E1": E1, "E2": E2, "E3": E3, "E3i": E3i, "E4": E4, "hn": hn, "EMS": EMS, "EMB": EMB, "main": main, "leaf": leaf, "mid": mid, "top": top}
@@ -259,6 +266,17 @@ def matrix_cases(tier, seed, stores=("local",)):
                     p1, d = gen.e_set_const(p0, callee)
             d.update({"position": pos, "variant": variant})
             emit("%s@%s" % (variant, pos), p0, p1, d)
+    # D9: function-local imports (of dds, of sibling modules by dotted name, of a module nothing else imports)
+    for form in ("from_import", "local_import_full"):
+        for what in ("lazy_const", "lazy_var", "A", "E3i", "h2", "C"):
+            p0 = base_program("pm%d" % k, import_form=form, local=True)
+            k += 1
+            if what.startswith("lazy_"):
+                p1, d = gen.e_set_lazy(p0, what[5:])
+            else:
+                p1, d = gen.e_set_const(p0, p0["_ids"][what])
+            d.update({"position": what, "import_form": form, "variant": "local_imports"})
+            emit("local:%s@%s" % (form, what), p0, p1, d)
     # D8: entry styles: data-function entry called directly / through eval / kept
     for style in ("call", "eval"):
         for pos in ("A", "C", "main"):
@@ -486,6 +504,15 @@ def random_program(rng, pkg, nfn=None, with_loads=False):
                 p["fns"][main]["stmts"].append(gen.s_call(g, args))
     p["entry"] = main
     p["ext"] = {"pkg": pkg + "_ext", "const": 1, "var": "1", "comment": "c"}
+    # function-local imports: `import dds` inside some bodies; a top-level module imported only inside one body
+    if rng.random() < 0.35:
+        for fid in fids + [main]:
+            if rng.random() < 0.5:
+                p["fns"][fid]["local_dds"] = True
+    if rng.random() < 0.3:
+        gen.add_lazy(p, const=rng.randrange(1, 9), var=str(rng.randrange(1, 9)))
+        plain = [g for g in fids if p["fns"][g]["data_path"] is None] or [main]
+        p["fns"][rng.choice(plain)]["stmts"].append(gen.s_lazy_call())
     return p
 
 
@@ -527,6 +554,8 @@ def random_edit(rng, p, tag):
     """One random edit of p (any kind)."""
     r = rng.random()
     fids = gen.reach(p, p["entry"])
+    if p.get("lazy") and r > 0.92:
+        return gen.e_set_lazy(p, rng.choice(["const", "var"]))
     if r < 0.3 and p["vars"]:
         return gen.e_set_var(p, rng.choice(sorted(p["vars"])), rng.randrange(1, 3))
     if r < 0.55:
